@@ -180,6 +180,9 @@ pub enum Op {
     /// poll this thread's `slot`-th kept acknowledgement once by hand with counting waker `waker`
     Poll { slot: usize, waker: usize },
     Yield,
+    /// map_get(key, f) where f calls back into the same cache (a delete of `inner`): legal, since
+    /// map_get hands no guard to the caller (C18's only exclusion is a live get_ref guard)
+    MapGetCallingBack { key: u32, inner: u32 },
 }
 
 impl Op {
